@@ -379,6 +379,7 @@ def _dot(nodes, opts=None):
     g = bigtree.tree_to_dot(nodes[o.get("from", 0) % len(nodes)], **kw)
     vs = [(n.get_name(), n.get("label")) for n in g.get_nodes()]
     es = [(e.get_source(), e.get_destination()) for e in g.get_edges()]
+    _dot.edge_labels = {(e.get_source(), e.get_destination()): e.get("label") for e in g.get_edges()}
     return vs, es
 
 
@@ -937,7 +938,23 @@ def _oracle_dot(d):
                 return m
         return None
     m = match(roots[0], spec)
-    return [m] if m else []
+    if m:
+        return [m]
+    # what a callable edge_attr returns for a node belongs to the edge INTO that node and to no other edge
+    eb = (d.get("sopts") or {}).get("edge_by")
+    if eb in ("depth", "all"):
+        depth = {roots[0]: 1}
+        todo = [roots[0]]
+        while todo:
+            v = todo.pop()
+            for k in kids.get(v, []):
+                depth[k] = depth[v] + 1
+                todo.append(k)
+        for (a, b), lab in getattr(_dot, "edge_labels", {}).items():
+            want = "w" if (eb == "all" or depth[b] % 2) else None
+            if (lab.strip('"') if isinstance(lab, str) else lab) != want:
+                return [f"edge ({a},{b}) into a node of depth {depth[b]} carries label {lab!r}, the edge_attr callable returned {want!r} for that node"]
+    return []
 
 
 FLOW = re.compile(r'^([0-9-]+)(?:\("(.*?)"\))? --> ([0-9-]+)\("(.*)"\)$', re.S)
@@ -1248,6 +1265,18 @@ def gen(rng: random.Random, tier: str):
     for sp in (k4a, k4b):
         for st in BUILTIN:
             add(mk({"op": "hyield", "spec": sp, "style": st, "inter": True}, ("corpus", "k4shape" if st == "ascii" else "k4-other-style")))
+
+    # wide parents: 12 and 104 children (child indices of two and three digits), some of them with children of their own
+    for width in (12, 104):
+        kids = [("k%d" % i, {}, [("g%d_%d" % (i, j), {}, []) for j in range(2)] if i % 5 == 3 else []) for i in range(width)]
+        wide = ("w", {}, [("x", {}, kids), ("y", {}, [])])
+        for op in ("mermaid", "dot", "yield", "hyield"):
+            dd = {"op": op, "spec": wide}
+            if op in ("yield", "hyield"):
+                dd["style"] = "const"
+            if op == "hyield":
+                dd["inter"] = True
+            add(mk(dd, ("corpus", "wide=%d" % width)))
 
     # ---------------- exhaustive small scope
     nmax = 6 if quick else 7
